@@ -282,7 +282,7 @@ def _inject(metric):
       getattr(metric, name).value = S(0)
 
 
-def metrics_ignore_batching(n, with_reset):
+def metrics_ignore_batching(n, with_reset, shape2d=0):
   """Average / Welford / Accuracy / MultiMetric over every partition of a stream
   of n symbolic reals into 1..3 consecutive batches == statistic of the stream"""
   t0 = time.time()
@@ -337,10 +337,16 @@ def metrics_ignore_batching(n, with_reset):
             if not isinstance(m.count.value, S):
               m.count.value = S(m.count.value)
         for lo, hi in part:
-          avg.update(values=xs[lo:hi])
-          wel.update(values=xs[lo:hi])
-          acc.update(logits=logits[lo:hi], labels=labels[lo:hi])
-          multi.update(values=xs[lo:hi], logits=logits[lo:hi], labels=labels[lo:hi])
+          vals, lg, lb = xs[lo:hi], logits[lo:hi], labels[lo:hi]
+          if shape2d and (hi - lo) % 2 == 0:
+            # the same values handed over as a [2, k] batch (e.g. [batch, time])
+            vals = vals.reshape(2, (hi - lo) // 2)
+            lg = lg.reshape(2, (hi - lo) // 2, 3)
+            lb = lb.reshape(2, (hi - lo) // 2)
+          avg.update(values=vals)
+          wel.update(values=vals)
+          acc.update(logits=lg, labels=lb)
+          multi.update(values=vals, logits=lg, labels=lb)
         st = wel.compute()
         mc = multi.compute()
         m2 = wel.m2.value
@@ -354,6 +360,7 @@ def metrics_ignore_batching(n, with_reset):
           cex = None
           if status == 'sat' and not isinstance(model, str):
             cex = dict(n=n, part=[list(p) for p in part], with_reset=with_reset,
+                       shape2d=shape2d,
                        xs=[_q(model, v.t) for v in xs.data],
                        logits=[_q(model, v.t) for v in logits.data],
                        labels=[int(str(model.eval(v.t, model_completion=True)))
@@ -375,7 +382,7 @@ def _q(model, t):
     return float(str(v).replace('?', ''))
 
 
-def replay_metrics(n, part, with_reset, xs, logits, labels):
+def replay_metrics(n, part, with_reset, xs, logits, labels, shape2d=0):
   """real jnp float run of the counterexample; True = property holds (1e-4)"""
   import jax.numpy as jnp
   xs_ = jnp.asarray(xs, jnp.float32)
@@ -387,9 +394,14 @@ def replay_metrics(n, part, with_reset, xs, logits, labels):
     wel.update(values=jnp.ones(2) * 9)
     avg.reset(), wel.reset(), acc.reset()
   for lo, hi in part:
-    avg.update(values=xs_[lo:hi])
-    wel.update(values=xs_[lo:hi])
-    acc.update(logits=lg[lo:hi], labels=lb[lo:hi])
+    v_, l_, y_ = xs_[lo:hi], lg[lo:hi], lb[lo:hi]
+    if shape2d and (hi - lo) % 2 == 0:
+      v_ = v_.reshape(2, -1)
+      l_ = l_.reshape(2, -1, 3)
+      y_ = y_.reshape(2, -1)
+    avg.update(values=v_)
+    wel.update(values=v_)
+    acc.update(logits=l_, labels=y_)
   x64 = np.asarray(xs, np.float64)
   ok = abs(float(avg.compute()) - x64.mean()) <= 1e-4 * (1 + abs(x64.mean()))
   ok &= abs(float(wel.compute().mean) - x64.mean()) <= 1e-4 * (1 + abs(x64.mean()))
@@ -444,11 +456,14 @@ def obligations(tier):
                                 HLP.TrainState.apply_gradients),
                 bounds='8 Variable-type layouts, 1..3 steps'))
   for n in range(1, (4 if quick else 6) + 1):
-    for wr in (0, 1):
+    for wr, s2 in ((0, 0), (1, 0), (0, 1)):
+      if s2 and n < 2:
+        continue
       obs.append(
-          Ob('metrics_ignore_batching_n%d_reset%d' % (n, wr),
-             metrics_ignore_batching, dict(n=I(n, n), with_reset=I(wr, wr)),
-             kind='smt', split=('n', 'with_reset'), timeout=900, funcs=H,
+          Ob('metrics_ignore_batching_n%d_reset%d_2d%d' % (n, wr, s2),
+             metrics_ignore_batching,
+             dict(n=I(n, n), with_reset=I(wr, wr), shape2d=I(s2, s2)),
+             kind='smt', split=('n', 'with_reset', 'shape2d'), timeout=900, funcs=H,
              replay=replay_metrics,
              bounds='stream of %d symbolic reals / logits rows (3 classes) / '
                     'labels, every partition into <=3 consecutive batches' % n))
